@@ -197,3 +197,69 @@ def R11_iter_any_all(body, ctx):
         body = body[:k] + loop + body[end:]
         n += 1
     return body, n
+
+
+def R2(body, ctx):
+    """`for P in A..B { body }` (a range loop, needed where the body contains `continue`, which Verus
+    rejects inside `for`) -> `{ let mut i_ = A; let end_ = B; while i_ < end_ { let P = i_; i_ += 1; body } }`.
+    A, B, P and the body are re-emitted unchanged; `continue` then re-tests `i_ < end_`, exactly as
+    the range iterator would."""
+    n = 0
+    rx = re.compile(r'(?<![A-Za-z0-9_.])for\s+(%s|_)\s+in\s+' % IDENT)
+    while True:
+        mask = code_mask(body)
+        hit = None
+        for m in rx.finditer(body):
+            if not mask[m.start()]:
+                continue
+            mo = find_top(body, r'\{', m.end(), mask)
+            if not mo:
+                continue
+            head = body[m.end():mo.start()]
+            mr = find_top(head, r'\.\.(?!=)')
+            if not mr:
+                continue
+            a, b = head[:mr.start()].strip(), head[mr.end():].strip()
+            if not a or not b:
+                continue
+            ob = mo.start()
+            cb = match_close(body, ob, mask)
+            hit = (m.start(), ob, cb, m.group(1), a, b)
+            break
+        if not hit:
+            break
+        s, ob, cb, pat, a, b = hit
+        new = ('{ let mut i_ = %s; let end_ = %s;\n        while i_ < end_ {\n            let %s = i_; i_ += 1;' % (a, b, pat)
+               + body[ob + 1:cb] + '} }')
+        body = body[:s] + new + body[cb + 1:]
+        n += 1
+    return body, n
+
+
+def R8(body, ctx):
+    """Critical sections of the job market (assumption A-LOCK: the parking_lot mutex gives mutual
+    exclusion): `let [mut] G = self.market.lock();` is removed and `G` becomes the `&mut JobMarket`
+    parameter replacing `self`; `self.has_new_jobs.notify_one()/notify_all();` are dropped (wake-ups
+    are not modelled); `self.has_new_jobs.wait(&mut G);` -> `lock_released_and_reacquired(G);`
+    (prelude: the market may have been changed arbitrarily by other threads)."""
+    mask = code_mask(body)
+    m = re.search(r'let\s+(mut\s+)?(%s)\s*=\s*self\.market\.lock\(\)\s*;' % IDENT, body)
+    if not m or not mask[m.start()]:
+        return body, 0
+    g = m.group(2)
+    body = body[:m.start()] + body[m.end():]
+    n = 1
+    body, k = re.subn(r'self\.has_new_jobs\.notify_(one|all)\(\)\s*;', '', body)
+    n += k
+    body, k = re.subn(r'self\.has_new_jobs\.wait\(\s*&mut\s+%s\s*\)\s*;' % re.escape(g), 'lock_released_and_reacquired(%s);' % g, body)
+    n += k
+    if re.search(r'(?<![A-Za-z0-9_])self(?![A-Za-z0-9_])', body):
+        raise LostAnchor('R8: `self` still used after removing the lock / condvar calls')
+    p = ctx['params']
+    mp = re.match(r'\s*&\s*(mut\s+)?self\b', p)
+    if not mp:
+        raise LostAnchor('R8: no self receiver')
+    ctx['params'] = '%s: &mut JobMarket<Job>' % g + p[mp.end():]
+    if '<' not in ctx['head']:
+        ctx['head'] += '<Job>'  # the method of `impl<Job> JobBroker<Job>` becomes a free function
+    return body, n
